@@ -22,6 +22,8 @@ RULE = ("C01/C02 programs; each (program, seed) is run twice with identical deci
         "(interpreter, mode, program, seed)")
 ASSUMPTIONS = [
     "observed and unobserved runs draw decisions from equal seeded PRNGs that the observer never touches",
+    "targets do not retain the dict returned by locals() (reading frame.f_locals refreshes that snapshot on CPython "
+    "<= 3.12, which is how every frame inspector works)",
     "valgrind/debug-allocator legs see heap staleness only, not staleness inside CPython's data-stack chunks",
 ]
 MIN_NONTRIVIAL = {"quick": 1500, "thorough": 30000}
